@@ -237,16 +237,18 @@ class LoopMixin:
                 pass
             except E._Break:
                 return
+            plevel = set(spec.get("property_level", []))
             for i, inv in enumerate(invs):
-                self.ctx.oblige(self, "loop-step", f"{header}#{i}", self.eval_inv(inv, frame, {}), "", True, text=inv)
+                self.ctx.oblige(self, "always" if inv in plevel else "loop-step", f"{header}#{i}", self.eval_inv(inv, frame, {}),
+                                "", inv not in plevel, text=inv)
             if dec:
                 self.pure += 1
                 try:
                     v1 = self.eval(self.verifier.parse_clause(dec), self.inv_frame(frame, {}))
                 finally:
                     self.pure -= 1
-                self.ctx.oblige(self, "decreases", header, z3.And(self.num(v1) < self.num(v0), self.num(v0) > 0) if False else
-                                z3.And(self.num(v0) >= 0, self.num(v1) < self.num(v0)), "", True, text=dec)
+                self.ctx.oblige(self, "always" if "decreases" in plevel else "decreases", header + ":decreases",
+                                z3.And(self.num(v0) >= 0, self.num(v1) < self.num(v0)), "", "decreases" not in plevel, text=dec)
             raise E.PathEnd()
         self.exec_block(node.orelse, frame)
 
